@@ -35,7 +35,7 @@ FAIL, SEEN = [], {"pairs": 0, "pairs_equal": 0, "incomplete": 0, "accumulate": 0
 # which clause a builder call addresses (the specification's reading of "different clauses")
 CLAUSE = {"select": "select", "from_": "from", "where": "where", "prewhere": "prewhere", "join_on": "join", "join_using": "join", "groupby": "groupby", "having": "having",
           "orderby": "orderby", "limit": "limit", "offset": "offset", "distinct": "distinct", "force_index": "force_index", "use_index": "use_index", "for_update": "for_update",
-          "with_": "with", "with_totals": "with_totals", "select_aliased": "select", "orderby_name": "orderby", "groupby_name": "groupby", "where_foreign": "where", "prewhere_foreign": "prewhere", "columns": "columns", "insert": "values", "set": "set", "on_conflict": "conflict", "do_update": "conflict", "do_nothing": "conflict"}
+          "with_": "with", "with_totals": "with_totals", "slice_from": "offset", "slice_to": "limit", "select_aliased": "select", "orderby_name": "orderby", "groupby_name": "groupby", "where_foreign": "where", "prewhere_foreign": "prewhere", "columns": "columns", "insert": "values", "set": "set", "on_conflict": "conflict", "do_update": "conflict", "do_nothing": "conflict"}
 # pairs of different clauses that are known NOT to commute (listed findings / documented features)
 KNOWN_PAIRS = {frozenset(("where", "from_")): "C13-where-before-from", frozenset(("prewhere", "from_")): "C13-where-before-from",
                frozenset(("where", "on_conflict")): "C13-where-before-on-conflict"}
@@ -58,6 +58,8 @@ def setters(t, u):
         "prewhere": (lambda q: q.prewhere(t.p == 1), lambda q: q.prewhere(t.q == 2)),
         "with_totals": (lambda q: q.with_totals(), None),
         # a select alias and ORDER BY / GROUP BY keys given as the string that spells it (resolved at render time, not at call time)
+        # one-sided slices address one bound only: q[5:] the offset, q[:10] the limit
+        "slice_from": (lambda q: q[5:], None), "slice_to": (lambda q: q[:10], None),
         "select_aliased": (lambda q: q.select(t.a.as_("xal")), None),
         "orderby_name": (lambda q: q.orderby("xal"), None),
         "groupby_name": (lambda q: q.groupby("xal"), None),
